@@ -57,7 +57,7 @@ func Generate(r *sim.Rng, prop, tier string, idx int) *sim.Case {
 	if tier == "thorough" && r.Chance(1, 6) && c.Mode == "rand" {
 		c.Knobs["disk"] = 1 // real memory-mapped file
 	}
-	if tier == "quick" && r.Chance(1, 25) && c.Mode == "rand" {
+	if tier == "quick" && r.Chance(1, 12) && c.Mode == "rand" {
 		c.Knobs["disk"] = 1
 	}
 	count := int(c.Knobs["segments"]) * 8 * int(c.Knobs["bs"])
